@@ -10,13 +10,17 @@ int decode_state(uint8_t s) { return s == 0 ? 1 : s == 127 ? 2 : s == 5 ? 3 : s 
 void one_case(Ctx &c) {
   Sim s(c); World w(s);
   s.nodeid = (uint8_t)(1 + c.t.below(9));
+  // mode other-frequencies: timer clocks that neither divide nor are divided by 1000 Hz as well; every generated time is a whole number of ticks
+  uint32_t num = 1, den = 1;
+  if (c.param == 1) { static const uint32_t F[7][3] = {{500, 1, 2}, {1500, 3, 2}, {2000, 2, 1}, {2500, 5, 2}, {4000, 4, 1}, {300, 3, 10}, {1250, 5, 4}}; uint32_t k = c.t.below(7); s.freq = F[k][0]; num = F[k][1]; den = F[k][2]; char b[40]; snprintf(b, sizeof b, "timer-frequency-%u-Hz", s.freq); c.cls(b); }
+  auto tk = [&](int ms) -> long { return (long)ms * num / den; };
   w.mandatory();
   int nen = 1 + (int)c.t.below(4);
   std::vector<ME> me(nen);
   std::vector<std::pair<uint8_t, uint16_t>> ent;
   for (int i = 0; i < nen; i++) {
     bool on = c.t.coin();
-    me[i].time = on ? (c.t.chance(200) ? 2 + (int)c.t.below(10) : 20 + (int)c.t.below(200)) : 0;
+    me[i].time = on ? (c.t.chance(200) ? 2 + (int)c.t.below(10) : 20 + (int)c.t.below(200)) * (int)den : 0;
     me[i].node = on ? 10 + i : 0;                     // statically configured entries name distinct nodes
     me[i].active = on;
     ent.push_back({(uint8_t)me[i].node, (uint16_t)me[i].time});
@@ -30,7 +34,7 @@ void one_case(Ctx &c) {
   auto tick = [&]() {
     s.clear_ev(); s.step_tick(); long T = s.tick;
     std::vector<int> exp;
-    for (auto &m : me) if (m.active && m.due == T) { m.due = T + m.time; if (m.events < 255) m.events++; else saturated = true; exp.push_back(m.node); }
+    for (auto &m : me) if (m.active && m.due == T) { m.due = T + tk(m.time); if (m.events < 255) m.events++; else saturated = true; exp.push_back(m.node); }
     std::vector<int> got; int changes = 0;
     for (auto &e : s.ev) { if (e.k == EV_HBEVENT) got.push_back((int)e.a); else if (e.k == EV_HBCHANGE) changes++; }
     CHECK(c, changes == 0, "change-only-on-reception", "a state-change notification was given during a timer step");
@@ -53,7 +57,7 @@ void one_case(Ctx &c) {
       if (mode == 0) continue;
       s.rx(Frame::mk(0x700u + n, 1, {sb}));
       std::vector<std::pair<int, int>> exp;
-      for (auto &m : me) if (m.active && m.node == n) { m.due = s.tick + m.time; int st = decode_state(sb); if (st != m.state) exp.push_back({n, st}); m.state = st; monitoring_started = true; break; }
+      for (auto &m : me) if (m.active && m.node == n) { m.due = s.tick + tk(m.time); int st = decode_state(sb); if (st != m.state) exp.push_back({n, st}); m.state = st; monitoring_started = true; break; }
       std::vector<std::pair<int, int>> got; int events = 0, app = 0;
       for (auto &e : s.ev) { if (e.k == EV_HBCHANGE) got.push_back({(int)e.a, (int)e.b}); else if (e.k == EV_HBEVENT) events++; else if (e.k == EV_CANRX) app++; }
       VLOG(c, "heartbeat of node %d, state byte %02X at tick %ld: %zu change notification(s)", n, sb, s.tick, got.size());
@@ -62,7 +66,7 @@ void one_case(Ctx &c) {
       CHECK(c, events == 0, "event-without-silence", "a heartbeat event was signalled on reception of a heartbeat");
     } else if (op == 3) { // write (node, time) to an entry through SDO or the API
       int i = (int)c.t.below(nen); int n = c.t.chance(200) ? 10 + (int)c.t.below(6) : (int)c.t.below(128);
-      int tm = c.t.below(3) == 0 ? 0 : (c.t.chance(200) ? 2 + (int)c.t.below(10) : 20 + (int)c.t.below(200));
+      int tm = c.t.below(3) == 0 ? 0 : (c.t.chance(200) ? 2 + (int)c.t.below(10) : 20 + (int)c.t.below(200)) * (int)den;
       uint32_t v = (uint32_t)tm | (uint32_t)n << 16;
       bool dup = false; if (tm > 0) for (auto &m : me) if (m.active && m.node == n) dup = true;
       bool api = mode == 4 || c.t.coin();
@@ -97,7 +101,7 @@ void one_case(Ctx &c) {
       int k = c.t.coin() ? 250 + (int)c.t.below(50) : 1 + (int)c.t.below(40);
       int best = -1; for (int i = 0; i < nen; i++) if (me[i].active && me[i].due >= 0 && (best < 0 || me[i].time < me[best].time)) best = i;
       if (best < 0) continue;
-      long n = (long)k * me[best].time; if (n > 4000) n = 4000;
+      long n = (long)k * tk(me[best].time); if (n > 4000) n = 4000;
       VLOG(c, "run %ld ticks (about %d expiries of entry %d)", n, k, best + 1);
       for (long i = 0; i < n; i++) tick();
     } else if (op == 7) { // NMT state change: consumption continues in PRE-OP, OPERATIONAL and STOPPED
@@ -132,7 +136,8 @@ Registrar reg(Prop{
     "SDO/API writes of (node,time) to any entry (node already monitored by this/another entry, time 0 / non-zero, re-targeting an active entry), CONmtGetHbEvents, CONmtLastHbState, SDO read-back, NMT state changes. "
     "Oracle: reference monitor per entry: armed by the first heartbeat, event callback + counter exactly at last_hb + T and every further T, counter saturating at 255 and cleared by reading, change callback iff the decoded state differs, write rules (0604 0043h and nothing changes / time 0 deactivates exactly that entry), other entries' schedules undisturbed. "
     "Non-trivial: >= 2 entries active at some point and >= 1 write after monitoring had started. Distinct = distinct decoded choice sequence.",
-    {Mode{"random", one_case, false, 1500000, 20000000, 0, 0, 300, 500}},
-    {"timer frequency 1000 Hz (1 ms = 1 tick)", "a state byte other than 00h, 04h, 05h, 7Fh - including these codes with the reserved bit 7 set - is no valid state (reported as CO_INVALID), as CONmtModeDecode documents", "a write that re-targets the entry's own node with a non-zero time counts as 'node already monitored' (as in the implementation and the statement's wording)"}});
+    {Mode{"random", one_case, false, 1500000, 20000000, 0, 0, 300, 500},
+     Mode{"other-frequencies", one_case, false, 300000, 5000000, 1, 1, 300, 500}},
+    {"timer frequency 1000 Hz (1 ms = 1 tick); mode other-frequencies: 300, 500, 1250, 1500, 2000, 2500 or 4000 Hz with consumer times that are whole numbers of ticks", "a state byte other than 00h, 04h, 05h, 7Fh - including these codes with the reserved bit 7 set - is no valid state (reported as CO_INVALID), as CONmtModeDecode documents", "a write that re-targets the entry's own node with a non-zero time counts as 'node already monitored' (as in the implementation and the statement's wording)"}});
 
 }  // namespace
